@@ -62,8 +62,15 @@ func runAggregation(raw json.RawMessage, seed int64) (res Result) {
 		s := w.baseScalar(k)
 		sks[i] = w.SK(s)
 		pks[i] = sks[i].PublicKey()
-		if (int(seed)+i)%3 == 0 { // a decoded copy: another object, same point
+		switch (int(seed) + i) % 4 {
+		case 0: // a decoded copy: another object, same point
 			pks[i], _ = crypto.DecodePublicKey(crypto.BLSBLS12381, pks[i].Encode())
+		case 1: // the same point in a non-affine internal representation (the output of an earlier removal)
+			if k == "nx1" {
+				pks[i] = w.PK(map[string]int{"x1": -1}, 3)
+			} else {
+				pks[i] = w.PK(map[string]int{k: 1}, 3)
+			}
 		}
 		sg, err := sks[i].Sign(m.Data, h)
 		if err != nil {
